@@ -77,6 +77,13 @@ ClassRows == {Row("class", t, 0, 0, "", ToJson(w), ClassPred(t, w)) : t \in {"up
 TimePred(test, s) == CASE test = "after" -> s > 0 [] test = "before" -> s < 0 [] test = "eq" -> s = 0
 TimeRows == {Row("time", t, 0, s, zp, zs, TimePred(t, s)) : t \in {"after", "before", "eq"}, s \in {-1, 0, 1}, zp \in {"utc", "plus2"}, zs \in {"utc", "plus2", "minus5"}}
 
+\* ... also for instants centuries apart (no arithmetic on a bounded representation)
+FarInstants == {[n |-> "y0001", sgn |-> -1], [n |-> "y1500", sgn |-> -1], [n |-> "y1677", sgn |-> -1], [n |-> "y2263", sgn |-> 1], [n |-> "y2500", sgn |-> 1], [n |-> "y9999", sgn |-> 1]}
+TimeFarRows == {Row("timefar", t, 0, f.sgn, "", f.n, TimePred(t, f.sgn)) : t \in {"after", "before", "eq"}, f \in FarInstants}
+
+\* ---- 6b. a slice's own tests are decided on the slice, whatever its elements did ----------------------------------
+SliceBesideRows == {Row("slicelen-bad-item", t, n, k, "", "", LenPred(t, n, k)) : t \in {"min", "max", "len"}, n \in 1..3, k \in 1..4}
+
 \* ---- 7. bool -----------------------------------------------------------------------------------------------
 BoolRows == {Row("bool", t, 0, s, "", "", IF t = "true" THEN s = 1 ELSE s = 0) : t \in {"true", "false"}, s \in {0, 1}}
            \cup {Row("bool", "eq", p, s, "", "", s = p) : p \in {0, 1}, s \in {0, 1}}
@@ -96,6 +103,12 @@ UUIDRows == {Row("uuid", "uuid", 0, 0, "", v.t, v.ok) : v \in {
    [t |-> "lower", ok |-> TRUE], [t |-> "upper", ok |-> TRUE], [t |-> "mixed", ok |-> TRUE], [t |-> "short-group", ok |-> FALSE], [t |-> "long-group", ok |-> FALSE],
    [t |-> "non-hex", ok |-> FALSE], [t |-> "no-hyphens", ok |-> FALSE], [t |-> "braces", ok |-> FALSE], [t |-> "trailing-char", ok |-> FALSE], [t |-> "empty", ok |-> FALSE],
    [t |-> "space-for-hyphen", ok |-> FALSE], [t |-> "leading-space", ok |-> FALSE]}}
+\* ... position by position: at a hex position exactly the hexadecimal digits are accepted, at a hyphen position exactly "-"
+\* (byte classes; the harness substitutes several members of the class at the position)
+ByteClasses == {"digit", "hex-lower", "hex-upper", "g-z", "G-Z", "ctrl-low", "ctrl-10-19", "space", "punct", "hyphen", "high-byte", "fullwidth-digit"}
+HyphenPos == {9, 14, 19, 24}
+UUIDSweepRows == {Row("uuidsweep", "uuid", pos, 0, "", cl, IF pos \in HyphenPos THEN cl = "hyphen" ELSE cl \in {"digit", "hex-lower", "hex-upper"}) :
+                    pos \in {1, 8, 9, 10, 14, 15, 19, 20, 24, 25, 30, 36}, cl \in ByteClasses}
 \* url: parses, has a scheme and a host
 URLRows == {Row("url", "url", 0, 0, "", v.t, v.ok) : v \in {
    [t |-> "http://a.b", ok |-> TRUE], [t |-> "https://a.b/p?q=1#f", ok |-> TRUE], [t |-> "ftp://h", ok |-> TRUE], [t |-> "a.b", ok |-> FALSE], [t |-> "http://", ok |-> FALSE],
@@ -105,7 +118,7 @@ URLRows == {Row("url", "url", 0, 0, "", v.t, v.ok) : v \in {
 MatchRows == {Row("match", "^a+$", 0, 0, "^a+$", Join(w), w # <<>> /\ \A i \in DOMAIN w : w[i] = "a") : w \in Words(3)}
              \cup {Row("match", "ab", 0, 0, "ab", Join(w), IsSub(<<"a", "b">>, w)) : w \in Words(3)}
 
-Rows == LenRows \cup CmpRows \cup NanRows \cup DeepRows \cup OneOfRows \cup AffixRows \cup ClassRows \cup TimeRows \cup BoolRows \cup EmailRows \cup UUIDRows \cup URLRows \cup MatchRows
+Rows == UUIDSweepRows \cup TimeFarRows \cup SliceBesideRows \cup LenRows \cup CmpRows \cup NanRows \cup DeepRows \cup OneOfRows \cup AffixRows \cup ClassRows \cup TimeRows \cup BoolRows \cup EmailRows \cup UUIDRows \cup URLRows \cup MatchRows
 
 \* every triple has exactly one expected verdict
 TableOK == \A a, b \in Rows : ([a EXCEPT !.expect = TRUE] = [b EXCEPT !.expect = TRUE]) => a.expect = b.expect
